@@ -102,6 +102,7 @@ def distance_mask(
 
     """
     coordinates, shape = _get_grid_coordinates(coordinates, grid)
+    check_coordinates([np.asarray(coord) for coord in data_coordinates[:2]])
     if projection is not None:
         data_coordinates = projection(*n_1d_arrays(data_coordinates, 2))
         coordinates = projection(*n_1d_arrays(coordinates, 2))
@@ -192,6 +193,7 @@ def convexhull_mask(
 
     """
     coordinates, shape = _get_grid_coordinates(coordinates, grid)
+    check_coordinates([np.asarray(coord) for coord in data_coordinates[:2]])
     n_coordinates = 2
     # Make sure they are arrays so we can normalize
     data_coordinates = n_1d_arrays(data_coordinates, n_coordinates)
